@@ -12,7 +12,7 @@ use std::time::{Duration, Instant};
 
 pub fn sim_families(prop: &str) -> Vec<&'static str> {
     match prop {
-        "C01" => vec!["life", "dag", "prefill", "maxfails", "timelimit", "mn"],
+        "C01" => vec!["life", "dag", "prefill", "redirect", "maxfails", "timelimit", "mn"],
         "C02" => vec!["life", "reject", "open", "prefill", "redirect", "mn"],
         "C03" => vec!["dag", "open"],
         "C04" => vec!["prefill", "reject", "life"],
